@@ -325,6 +325,35 @@ func (t *T) Mix(a int, b float64, c string) string {
 }
 func (t *T) None() { rec() }
 
+// methods with two and three parameters of different kinds (position matrix on the method path)
+func (t *T) IS(a int, b string) string {
+	rec(a, b)
+	return build(kinds["string"], tret).Interface().(string)
+}
+func (t *T) SI(a string, b int) int { rec(a, b); return build(kinds["int"], tret).Interface().(int) }
+func (t *T) II(a int, b int) int    { rec(a, b); return build(kinds["int"], tret).Interface().(int) }
+func (t *T) SS(a string, b string) bool {
+	rec(a, b)
+	return build(kinds["bool"], tret).Interface().(bool)
+}
+func (t *T) FF(a float64, b float64) float64 {
+	rec(a, b)
+	return build(kinds["float64"], tret).Interface().(float64)
+}
+func (t *T) BI(a bool, b int) bool { rec(a, b); return build(kinds["bool"], tret).Interface().(bool) }
+func (t *T) SIF(a string, b int, c float64) int {
+	rec(a, b, c)
+	return build(kinds["int"], tret).Interface().(int)
+}
+func (t *T) III(a int, b int, c int) int {
+	rec(a, b, c)
+	return build(kinds["int"], tret).Interface().(int)
+}
+func (t *T) I8U8(a int8, b uint8) int8 {
+	rec(a, b)
+	return build(kinds["int8"], tret).Interface().(int8)
+}
+
 // ---- concurrent callers
 var (
 	cCalls, cBad atomic.Int64
